@@ -2,8 +2,9 @@
    Print Assumptions only. The pins in tools/pins/C10.v re-check the statements. *)
 From Coq Require Import List NArith ZArith Bool Sorted Permutation.
 From V.gen Require Consts DialErrors.
-From V.C10 Require Import Model Proofs.
-From V.C10 Require ErrNames.
+From V.C10 Require Import Model IpClass Proofs.
+From V.C10 Require ErrNames KadStore.
+From V.C14 Require AddrModel.
 Import ListNotations.
 
 (* Bound: in every reachable book (any configuration, any capacity, any history of additions,
@@ -42,6 +43,34 @@ Theorem C10_offer_filter :
 Proof. exact accepted_acceptable. Qed.
 Print Assumptions C10_offer_filter.
 
+(* The same through a protocol's TransportService (Kademlia, user protocols): the service appends
+   /p2p/<peer> to an offered address that ends in no peer id. What is remembered is therefore an
+   offered address that names the peer, or an offered address without a peer id with the id
+   appended - and it passed the filter above. *)
+Theorem C10_service_offer_filter :
+  forall c ls peer l a, In a (accepted c ls peer (ts_prepare peer l)) ->
+    (exists a0, In a0 l /\
+       ((last a0 (Other 0) = P2p peer /\ a = a0) \/
+        ((forall q, last a0 (Other 0) <> P2p q) /\ a = a0 ++ [P2p peer]))) /\
+    supported c a = true /\ is_local c ls a = false /\ last a (Other 0) = P2p peer.
+Proof. exact service_offer. Qed.
+Print Assumptions C10_service_offer_filter.
+
+(* Litep2p level: new() registers the listen addresses ls of the configured transports and then
+   adds Litep2pConfig::known_addresses; afterwards Litep2p::add_known_address. After any such
+   history every remembered address is supported, names its peer, is not local with respect to ls
+   and is dialable. No assumption. *)
+Theorem C10_litep2p_level :
+  forall c k ls h p s a z,
+    only_adds h ->
+    get p (bk (fst (run c k (mkState [] ls 0 []) h))) = Some s -> In (a, z) s ->
+    (supported c a = true /\ is_local c ls a = false /\ last a (Other 0) = P2p p) /\
+    (enabled c (route c a) = true /\
+     exists ho port, parse (route c a) a = Some (ho, port, Some p) /\
+                     host_unspecified ho = false).
+Proof. exact litep2p_level. Qed.
+Print Assumptions C10_litep2p_level.
+
 (* Registering further listen addresses can only make more addresses local. *)
 Theorem C10_listen_monotone :
   forall c l1 l2 a, incl l1 l2 -> is_local c l2 a = false -> is_local c l1 a = false.
@@ -77,26 +106,66 @@ Theorem C10_remembered_dialable :
 Proof. exact run_remembered. Qed.
 Print Assumptions C10_remembered_dialable.
 
+(* ... and, again without any condition on what dial_address is handed, none of the remembered
+   addresses is one of the node's own listen addresses L0 under whatever peer id: with the /p2p
+   suffix taken off it is neither a listen address nor a listen address followed by /p2p/<local>
+   (add_known_address and, since the repair of dial_address, dial_address both look the stripped
+   address up in the listen set). *)
+Theorem C10_remembered_not_own_listen :
+  forall c k L0 h p s a z,
+    Forall (op_strict c L0) h ->
+    get p (bk (fst (run c k (mkState [] L0 0 []) h))) = Some s -> In (a, z) s ->
+    (last a (Other 0) = P2p p /\ enabled c (route c a) = true /\
+     exists ho port, parse (route c a) a = Some (ho, port, Some p)) /\
+    forall l, In l L0 -> strip_p2p a <> l /\ strip_p2p a <> l ++ [P2p (local_peer c)].
+Proof.
+  intros c k L0 h p s a z Hw Hg Hin. destruct (run_strict c k L0 h p s a z Hw Hg Hin) as [H1 H2].
+  split; [exact H1 | exact (proj1 (not_own_spec _ _ _) H2)].
+Qed.
+Print Assumptions C10_remembered_not_own_listen.
+
+(* In particular for histories that consist of API calls (add_known_address at any level,
+   register_listen_address, dial_address, public addresses, held connections, probes) and complete
+   dial(peer) / dial_address episodes - i.e. without dial results reported out of the blue and raw
+   store inserts - nothing is assumed at all. *)
+Theorem C10_api_histories :
+  forall c k L0 h p s a z,
+    Forall api_op h ->
+    get p (bk (fst (run c k (mkState [] L0 0 []) h))) = Some s -> In (a, z) s ->
+    (last a (Other 0) = P2p p /\ enabled c (route c a) = true /\
+     exists ho port, parse (route c a) a = Some (ho, port, Some p)) /\
+    forall l, In l L0 -> strip_p2p a <> l /\ strip_p2p a <> l ++ [P2p (local_peer c)].
+Proof.
+  intros c k L0 h p s a z Hw Hg Hin. destruct (run_api c k L0 h p s a z Hw Hg Hin) as [H1 H2].
+  split; [exact H1 | exact (proj1 (not_own_spec _ _ _) H2)].
+Qed.
+Print Assumptions C10_api_histories.
+
 (* What dial_address lets through (and stores with score 0 before dialing): free outbound
-   capacity, not literally a registered listen address, and an address that names q and is parsed
-   with q by the enabled transport t it is handed to. *)
+   capacity, not a registered listen address - neither literally nor with its /p2p suffix taken
+   off, i.e. under another peer id - and an address that names q and is parsed with q by the
+   enabled transport t it is handed to. *)
 Theorem C10_dial_address_filter :
   forall c st a t q,
     dial_addr_check c st a = DAOk t q ->
     free_capacity c st 0 <> None /\
-    existsb (maddr_eqb a) (listen_set c (lst st)) = false /\
+    (existsb (maddr_eqb a) (listen_set c (lst st)) = false /\
+     existsb (maddr_eqb (strip_p2p a)) (listen_set c (lst st)) = false) /\
     route c a = t /\
     (last a (Other 0) = P2p q /\ enabled c (route c a) = true /\
      exists ho port, parse (route c a) a = Some (ho, port, Some q)).
-Proof. exact dial_addr_ok_spec. Qed.
+Proof.
+  intros c st a t q H. destruct (dial_addr_ok_spec _ _ _ _ _ H) as [H1 [H2 H3]].
+  split; [exact H1|]. split; [exact (own_listen_false _ _ _ H2) | exact H3].
+Qed.
 Print Assumptions C10_dial_address_filter.
 
 (* The two address checks agree on shapes: whatever add_known_address would accept, dial_address
-   dials through the same transport (given capacity, unless it literally is a listen address). *)
+   dials through the same transport (given capacity, unless it is a listen address). *)
 Theorem C10_supported_implies_dial_address :
   forall c st a,
     supported c a = true -> free_capacity c st 0 <> None ->
-    existsb (maddr_eqb a) (listen_set c (lst st)) = false ->
+    own_listen c (lst st) a = false ->
     exists q, last a (Other 0) = P2p q /\ dial_addr_check c st a = DAOk (route c a) q.
 Proof. exact supported_dial_addr. Qed.
 Print Assumptions C10_supported_implies_dial_address.
@@ -207,25 +276,26 @@ Proof. exact addresses_ok_complete. Qed.
 Print Assumptions C10_dial_order_validator_complete.
 
 (* dial(peer) end to end: when the model accepts the address lists that the implementation
-   handed to the open() of its TCP and WebSocket transports, then the peer is not the local
+   handed to the open() of its TCP, WebSocket and QUIC transports, then the peer is not the local
    one, there was free outbound capacity `limit` (max_outgoing_connections minus the established
-   outbound connections, or everything when unlimited), the two lists merged by score are a
+   outbound connections, or everything when unlimited), the three lists merged by score are a
    valid addresses(limit) selection of the peer's store (see C10_dial_order_validator_sound),
    every address went to the installed transport it is routed to and names the peer, and the
    store afterwards is the recorded outcome. *)
 Theorem C10_dial_tries :
-  forall c k st peer outcome errs tcp ws t w st',
-  step c k st (ODial peer outcome errs tcp ws) = (st', RDial (DTried t w)) ->
+  forall c k st peer outcome errs tcp ws qu t w q st',
+  step c k st (ODial peer outcome errs tcp ws qu) = (st', RDial (DTried t w q)) ->
   let s := get_or_empty peer (bk st) in
   exists limit,
     free_capacity c st (length s) = Some limit /\
     peer <> local_peer c /\
-    t = with_scores s tcp /\ w = with_scores s ws /\
-    addresses_ok limit s (merge_desc t w) = true /\
-    Permutation (merge_desc t w) (t ++ w) /\
+    t = with_scores s tcp /\ w = with_scores s ws /\ q = with_scores s qu /\
+    addresses_ok limit s (merge_desc (merge_desc t w) q) = true /\
+    Permutation (merge_desc (merge_desc t w) q) (t ++ w ++ q) /\
     Forall (fun a => In a (keys s) /\ names peer a = true /\ route c a = TTcp /\ enabled c TTcp = true) tcp /\
     Forall (fun a => In a (keys s) /\ names peer a = true /\ route c a = TWs /\ enabled c TWs = true) ws /\
-    st' = set_bk st (put peer (dial_outcome k s peer outcome errs tcp ws) (bk st)).
+    Forall (fun a => In a (keys s) /\ names peer a = true /\ route c a = TQuic /\ enabled c TQuic = true) qu /\
+    st' = set_bk st (put peer (dial_outcome k s peer outcome errs tcp ws qu) (bk st)).
 Proof. exact step_dial_tried. Qed.
 Print Assumptions C10_dial_tries.
 
@@ -242,11 +312,12 @@ Print Assumptions C10_free_capacity.
 (* All attempts of a dial fail, attempt i with error kind errs[i mod |errs|]: exactly the tried
    addresses are re-scored, each to the score of the error kind its attempt failed with. *)
 Theorem C10_dial_all_fail :
-  forall k s peer errs tcp ws b,
-  NoDup (keys s) -> NoDup (tcp ++ ws) -> (forall a, In a (tcp ++ ws) -> In a (keys s)) ->
+  forall k s peer errs tcp ws qu b,
+  NoDup (keys s) -> NoDup (tcp ++ ws ++ qu) -> (forall a, In a (tcp ++ ws ++ qu) -> In a (keys s)) ->
   (forall e, error_score k e <> 0%Z) ->
-  find b (dial_outcome k s peer 0 errs tcp ws) =
-    match lookup_err b (tag_errs errs 0 tcp ++ tag_errs errs (length tcp) ws) with
+  find b (dial_outcome k s peer 0 errs tcp ws qu) =
+    match lookup_err b (tag_errs errs 0 tcp ++ tag_errs errs (length tcp) ws ++
+                        tag_errs errs (length tcp + length ws) qu) with
     | Some e => Some (error_score k e)
     | None => find b s
     end.
@@ -285,6 +356,16 @@ Print Assumptions C10_error_variants_in_sync.
 Theorem C10_store_sites_in_sync : ErrNames.model_store_sites = DialErrors.store_sites.
 Proof. exact ErrNames.store_sites_in_sync. Qed.
 Print Assumptions C10_store_sites_in_sync.
+
+(* The places of the crate where an address is offered to the book (calls of add_known_address /
+   dial_address in src/**/*.rs, extracted on every check) are the ten the model covers (see
+   ErrNames.v; identify.rs and mdns.rs offer none), and in Litep2p::new the configured known
+   addresses are added after the transports have registered their listen addresses. *)
+Theorem C10_entry_sites_in_sync :
+  ErrNames.model_entry_sites = DialErrors.entry_sites /\
+  ErrNames.listen_before_known DialErrors.new_call_order = true.
+Proof. exact ErrNames.entry_sites_in_sync. Qed.
+Print Assumptions C10_entry_sites_in_sync.
 
 Theorem C10_error_kinds_enumerated :
   forall e, In e all_dial_errors /\ err_of_code (err_code e) = Some e.
@@ -392,6 +473,22 @@ Theorem C10_dial_address_new_step :
 Proof. exact step_dial_addr_new. Qed.
 Print Assumptions C10_dial_address_new_step.
 
+(* ... and when the transport refuses to start the dial (its dial() returns an error): a stored
+   address keeps its score, a new one is remembered as untested (score 0, or the public bonus);
+   nothing else changes. *)
+Theorem C10_dial_address_refused_step :
+  forall c k st a vs t q,
+  dial_addr_check c st a = DAOk t q ->
+  let s := get_or_empty q (bk st) in
+  let st' := fst (step c k st (ODialAddrRefused a vs)) in
+  (forall z0, find a s = Some z0 -> get q (bk st') = Some s) /\
+  (find a s = None -> (length s < cap k)%nat ->
+     get q (bk st') = Some (s ++ [(a, new_score k a 0%Z)])) /\
+  (forall p, p <> q -> get p (bk st') = get p (bk st)) /\
+  lst st' = lst st /\ held st' = held st /\ pubs st' = pubs st.
+Proof. exact step_dial_addr_refused. Qed.
+Print Assumptions C10_dial_address_refused_step.
+
 (* i32: the public-address bonus saturates at both ends ... *)
 Theorem C10_saturation :
   forall a b,
@@ -408,6 +505,113 @@ Theorem C10_scores_in_i32 :
   Forall op_i32 h -> get p (bk (final c default_scores h)) = Some s -> In (a, z) s -> in_i32 z.
 Proof. exact final_scores_i32. Qed.
 Print Assumptions C10_scores_in_i32.
+
+(* ---------- concrete IP addresses ---------- *)
+
+(* The four address classes of the model lose nothing: for a concrete IPv4 / IPv6 address the
+   three predicates the code evaluates - std's is_unspecified and is_loopback, ip_network's
+   is_global (transcribed range by range in IpClass.v) - are functions of its class; in particular
+   an unspecified or loopback address is never global. *)
+Theorem C10_ip_classes_exact :
+  (forall ip, is_unspec (classify4 ip) = v4_unspecified ip /\ is_loop (classify4 ip) = v4_loopback ip /\
+              is_glob (classify4 ip) = v4_global ip) /\
+  (forall ip, is_unspec (classify6 ip) = v6_unspecified ip /\ is_loop (classify6 ip) = v6_loopback ip /\
+              is_glob (classify6 ip) = v6_global ip).
+Proof. split; [exact classify4_exact | exact classify6_exact]. Qed.
+Print Assumptions C10_ip_classes_exact.
+
+(* ... so what the model computes on an address that starts with a concrete IP is what the code
+   computes: supported_transport refuses exactly the unspecified addresses, the public-address
+   bonus goes exactly to the addresses ip_network calls global, and is_local_address compares
+   sockets as the code does (same IP; unspecified listener and loopback address; two loopback
+   addresses - IPv4 and IPv6 alike). *)
+Theorem C10_ip_predicates_concrete :
+  (forall ip, first_ok (comp_of_ip4 ip) = negb (v4_unspecified ip)) /\
+  (forall ip, first_ok (comp_of_ip6 ip) = negb (v6_unspecified ip)) /\
+  (forall ip rest, is_global (comp_of_ip4 ip :: rest) = v4_global ip) /\
+  (forall ip rest, is_global (comp_of_ip6 ip :: rest) = v6_global ip) /\
+  (forall v a port w l lport rest,
+     local_match (ipaddr_of v a) port (ip_comp w l :: Tcp lport :: rest) =
+       N.eqb port lport &&
+       ((Bool.eqb w v && N.eqb l a) ||
+        (conc_unspecified w l && conc_loopback v a) ||
+        (conc_loopback w l && conc_loopback v a))).
+Proof.
+  repeat split; [exact first_ok_ip4 | exact first_ok_ip6 | exact is_global_ip4 | exact is_global_ip6
+                | exact local_match_conc].
+Qed.
+Print Assumptions C10_ip_predicates_concrete.
+
+(* The ranges the correspondence run maps the abstract (class, id) pairs to - 0.0.0.0, 127.1/16,
+   10.7/16, 8.8/16, ::, ::1, fd00::7:x, 2001:4860::x - have the class they stand for. *)
+Theorem C10_mapped_ranges :
+  forall c id, (id < 65536)%N -> classify4 (mapped4 c id) = c /\ classify6 (mapped6 c id) = c.
+Proof. intros c id H. split; [exact (mapped4_class c id H) | exact (mapped6_class c id H)]. Qed.
+Print Assumptions C10_mapped_ranges.
+
+(* The special ranges were transcribed from ip_network 0.4.1; Cargo.lock still names that version. *)
+Theorem C10_ip_network_version : DialErrors.ip_network_version = ErrNames.ip_network_0_4_1.
+Proof. exact ErrNames.ip_network_version_pinned. Qed.
+Print Assumptions C10_ip_network_version.
+
+(* ---------- the address stores inside the Kademlia routing table (C14) ---------- *)
+
+(* coq/C14/AddrModel.v models KademliaPeer.address_store - the same AddressStore type - over
+   abstract addresses. Its addresses embed injectively into the multiaddress grammar of this model,
+   preserving "global" and AddressRecord::new's "append the peer id unless there is one" ... *)
+Theorem C10_kad_embedding :
+  forall p,
+    (forall a b, KadStore.emb p a = KadStore.emb p b -> a = b) /\
+    (forall a, is_global (KadStore.emb p a) = AddrModel.is_global a) /\
+    (forall a, with_peer p (KadStore.emb p a) = KadStore.emb p (AddrModel.with_p2p a)).
+Proof.
+  intro p. split; [exact (KadStore.emb_inj p)|]. split; [exact (KadStore.emb_global p) | exact (KadStore.emb_with_peer p)].
+Qed.
+Print Assumptions C10_kad_embedding.
+
+(* ... and C14's insert is the image of this model's insert under the embedding, with the
+   constants of address.rs, for every capacity, store, address, victim choice and every score whose
+   sum with the public bonus is an i32 (C14 writes the bonus without saturation; it uses the scores
+   0 and +-100 only): the routing table's stores are instances of the store of C10 ... *)
+Theorem C10_kad_store_is_instance :
+  forall p n s a sc v,
+    (I32_MIN <= sc + AddrModel.S_BONUS <= I32_MAX)%Z ->
+    insert (KadStore.kad_scores n) (KadStore.emb_store p s) (KadStore.emb p a) sc (option_map (KadStore.emb p) v) =
+      (KadStore.emb_store p (fst (AddrModel.sinsert n s a sc v)),
+       KadStore.emb_res p (snd (AddrModel.sinsert n s a sc v))).
+Proof. exact KadStore.sinsert_sim. Qed.
+Print Assumptions C10_kad_store_is_instance.
+
+(* ... with the capacity and constants C14 reads from address.rs this is default_scores, and the
+   lists KademliaPeer::addresses() reports are the image of addresses(limit). *)
+Theorem C10_kad_addresses_is_instance :
+  KadStore.kad_scores AddrModel.CAP = default_scores /\
+  forall p limit s,
+    addresses limit (KadStore.emb_store p s) = KadStore.emb_store p (AddrModel.reported limit s).
+Proof. split; [exact KadStore.kad_scores_default | exact KadStore.reported_sim]. Qed.
+Print Assumptions C10_kad_addresses_is_instance.
+
+(* Theorems about one store therefore carry over; for example C10_evict_min and
+   C10_rescore_exact read on the routing table's stores: *)
+Theorem C10_kad_evict_min :
+  forall (p : N) n s a sc v w,
+    (I32_MIN <= sc + AddrModel.S_BONUS <= I32_MAX)%Z -> NoDup (map fst s) ->
+    snd (AddrModel.sinsert n s a sc v) = AddrModel.IEvicted w ->
+    exists m, AddrModel.sfind a s = None /\ (n <= length s)%nat /\ AddrModel.sfind w s = Some m /\
+              (forall b z, In (b, z) s -> (m <= z)%Z) /\
+              AddrModel.sfind w (fst (AddrModel.sinsert n s a sc v)) = None /\
+              length (fst (AddrModel.sinsert n s a sc v)) = length s.
+Proof. exact KadStore.kad_evict_min. Qed.
+Print Assumptions C10_kad_evict_min.
+
+Theorem C10_kad_rescore_exact :
+  forall (p : N) n s a sc v z0,
+    (I32_MIN <= sc + AddrModel.S_BONUS <= I32_MAX)%Z -> AddrModel.sfind a s = Some z0 -> sc <> 0%Z ->
+    snd (AddrModel.sinsert n s a sc v) = AddrModel.IUpdated /\
+    AddrModel.sfind a (fst (AddrModel.sinsert n s a sc v)) = Some sc /\
+    forall b, b <> a -> AddrModel.sfind b (fst (AddrModel.sinsert n s a sc v)) = AddrModel.sfind b s.
+Proof. exact KadStore.kad_rescore_exact. Qed.
+Print Assumptions C10_kad_rescore_exact.
 
 (* ---------- the node's own addresses: the /p2p suffix rule ---------- *)
 
@@ -469,7 +673,7 @@ Example C10_nonvacuous :
             OAdd 1 [a2; [Ip4 Loop 9; Tcp 30; P2p 1]; a1; a2] [a1; a2] [];
             ODialFailure a1 (EDns DeResolveError) None; OAdd 1 [a3] [a3] [a1];
             OHold 2;
-            ODial 1 1 [ENegotiation NeTimeout] [a3] [];
+            ODial 1 1 [ENegotiation NeTimeout] [a3] [] [];
             OAdd 1 [a2] [a2] [];
             ODialAddr a2 (Some (EAddress AeInvalidProtocol)) [];
             ODialAddr [Ip4 Unspec 0; Tcp 30; P2p 0] None [];
@@ -477,7 +681,7 @@ Example C10_nonvacuous :
   get 1 (bk (final c k h)) = Some [(a2, -2147483648); (a3, 100)]%Z /\
   snd (run c k init h) =
     [RListen; RAdd 2 false; RIns (Some Updated); RAdd 1 false; RHold 2;
-     RDial (DTried [(a3, 1%Z)] []); RAdd 1 false; RDialAddr (DAOk TWs 1) false;
+     RDial (DTried [(a3, 1%Z)] [] []); RAdd 1 false; RDialAddr (DAOk TWs 1) false;
      RDialAddr DASelf false; RPub (PubAdded true); RPub PubDifferent] /\
   pubs (final c k h) = [[Dns 5; Tcp 5; P2p 0]] /\
   supported c a2 = true /\ route c a2 = TWs.
